@@ -16,9 +16,13 @@ def tableToken (cols : List (String × List String)) : String :=
   "⟦TABLE" ++ String.join (cols.map fun (k, vs) =>
       "⟦" ++ k ++ String.join (vs.map fun v => "∥" ++ v) ++ "⟧") ++ "⟧"
 
-/-- `str(value).replace("\n", "<br />")` applied to every cell (`str` already applied by the caller) -/
+/-- `str(value).replace("\n", "<br />").replace("|", "\\|")` -/
+def cellText (v : String) : String := sReplaceChar '|' "\\|" (sReplaceChar '\n' "<br />" v)
+
+/-- applied to every cell (`str` already applied by the caller); column names only get the
+`|` escape -/
 def tableCells (cols : Table) : List (String × List String) :=
-  cols.map fun (k, vs) => (k, vs.map (sReplaceChar '\n' "<br />"))
+  cols.map fun (k, vs) => (sReplaceChar '|' "\\|" k, vs.map cellText)
 
 /-- `{content}\n\n{val}` when there is a description -/
 def withDescription (content val : String) : String :=
